@@ -2,6 +2,8 @@ import Nervus.Driver.Util
 import Nervus.Driver.Backup
 import Nervus.Driver.CapiSched
 import Nervus.Driver.Codec
+import Nervus.Driver.Cypher
+import Nervus.Driver.CypherUpdate
 import Nervus.Driver.Handles
 import Nervus.Driver.Locks
 import Nervus.Driver.OKey
@@ -19,17 +21,9 @@ def streams : List (String × Stream) := ([] : List (String × Stream))
   |>.cons ("handles", HandlesStream.stream)
   |>.cons ("snapsched", SnapSchedStream.stream)
   |>.cons ("backup", BackupStream.stream)
-import Nervus.Driver.Cypher
-import Nervus.Driver.CypherUpdate
-open Nervus.Driver
-
-/-- stream registry: one line per stream (kept one-per-line so that merges are unions) -/
-def streams : List (String × Stream) := [
-  ("okey", OKeyStream.stream),
-  ("query", CypherStream.stream),
-  ("querystat", CypherStream.statStream),
-  ("update", UpdateStream.stream),
-]
+  |>.cons ("query", CypherStream.stream)
+  |>.cons ("querystat", CypherStream.statStream)
+  |>.cons ("update", UpdateStream.stream)
 
 def main (args : List String) : IO UInt32 := do
   match args with
